@@ -1,4 +1,5 @@
 import DG.FcPkg
+import Proofs.FcDeps
 /-!
 # C12 — fast check is all-or-nothing per package and cache-transparent
 
@@ -248,5 +249,40 @@ theorem stale_entry_recomputed (p : Pkg) (items : List (Nat × CItem)) (s : Nat)
     rw [List.all_eq_false]
     exact ⟨(s, i), hm, by simpa using hh⟩
   simp [this]
+
+/-! ## across packages (`DG/FcDeps.lean`): which packages are analysed, with and without a cache -/
+section Packages
+open DG.FcDeps
+
+/-- the packages taken from the queue are exactly those reachable from the top-level packages
+through recorded dependencies — whatever the cache holds -/
+theorem analysed_is_dependency_closure (w : World) (top : List Nat) (fuel : Nat) (s : St)
+    (h : run w fuel (init top) = some s) (q : Nat) : q ∈ s.analysed ↔ Reach w top q :=
+  analysed_iff_reach w top fuel s h q
+
+/-- **cache transparency at the level of packages**: if every package the trace of a package enters
+is recorded as its dependency, the packages that end up with fast check data are the same for
+every cache state (all entries valid, none, or any mixture after edits) -/
+theorem packages_cache_transparent (w : World) (top : List Nat) (fuel : Nat) (s : St)
+    (hrec : ∀ p q, q ∈ (w.pkg p).touched → q = p ∨ q ∈ (w.pkg p).recorded)
+    (h : run w fuel (init top) = some s) (stale stale' : Nat → Bool) (q : Nat) :
+    q ∈ outputs w stale s ↔ q ∈ outputs w stale' s :=
+  outputs_same_for_all_cache_states w top fuel s hrec h stale stale' q
+
+/-- finding F33 (repaired in /repo): a package whose trace enters another package without recording
+it — with a cold cache the other package has fast check data, with a warm cache it has none -/
+theorem unrecorded_dependency_breaks_cache :
+    let w : World := [{ touched := [1], recorded := [] }, { touched := [], recorded := [] }]
+    ∃ s, run w 5 (init [0]) = some s ∧
+      (1 ∈ outputs w (fun _ => true) s) ∧ ¬ (1 ∈ outputs w (fun _ => false) s) := by
+  refine ⟨{ queue := [], seen := [0], analysed := [0] }, by rfl, by decide, by decide⟩
+
+/-- the hypothesis is satisfiable and the run finishes: a diamond, both top-level packages star-re-export
+the third -/
+example :
+    let w : World := [{ touched := [2], recorded := [2] }, { touched := [2], recorded := [2] }, { touched := [], recorded := [] }]
+    (run w 5 (init [0, 1])).map (·.analysed) = some [0, 1, 2] := by decide
+
+end Packages
 
 end DG.C12
